@@ -418,7 +418,14 @@ func (w *worker[T, JobType]) goListenToContext() {
 	go func(c context.Context) {
 		<-c.Done()
 
-		w.Stop()
+		// Restart cancels the previous run's context; only the listener of the current run may stop the worker
+		w.mx.RLock()
+		current := w.ctx == c
+		w.mx.RUnlock()
+
+		if current {
+			w.Stop()
+		}
 	}(w.ctx)
 }
 
